@@ -88,7 +88,6 @@ func v2wfAll(p *psetv2.Pset) (l []string) {
 		var keys [][]byte
 		for _, d := range l {
 			bad(!v2pkOK(d.PubKey), "bip32-pubkey")
-			bad(len(d.Bip32Path) < 1, "empty-bip32-path")
 			keys = append(keys, d.PubKey)
 		}
 		bad(v2dupKey(keys), "bip32-duplicate")
@@ -97,7 +96,6 @@ func v2wfAll(p *psetv2.Pset) (l []string) {
 	bad(g.InputCount != uint64(len(p.Inputs)) || g.OutputCount != uint64(len(p.Outputs)), "count-mismatch")
 	for _, x := range g.Xpubs {
 		bad(len(x.ExtendedKey) != 78, "length:xpub")
-		bad(len(x.DerivationPath) < 1, "empty-bip32-path")
 	}
 	for _, s := range g.Scalars {
 		bad(len(s) != 32, "length:scalar")
@@ -119,10 +117,10 @@ func v2wfAll(p *psetv2.Pset) (l []string) {
 				bad(err != nil || !bytes.Equal(b1, b2), "nonwitness-utxo")
 			}
 		}
-		if in.WitnessUtxo != nil { // readTxOut wants 45 bytes and gives the same output back
+		if in.WitnessUtxo != nil { // readTxOut wants 44 bytes and gives the same output back
 			enc := v2encTxOut(in.WitnessUtxo)
 			o, ok := v2decTxOut(enc)
-			bad(len(enc) < 45, "witness-utxo<45")
+			bad(len(enc) < 44, "witness-utxo<44") // only with a null (one-byte) value: not an output any API yields
 			bad(!ok || !bytes.Equal(v2encTxOut(o), enc), "witness-utxo")
 		}
 		if in.PeginTx != nil {
@@ -140,7 +138,7 @@ func v2wfAll(p *psetv2.Pset) (l []string) {
 		keys = nil
 		for _, s := range in.TapScriptSig {
 			bad(len(s.PubKey)+len(s.LeafHash) != 64 || (len(s.Signature) != 64 && len(s.Signature) != 65), "tap-script-sig")
-			keys = append(keys, append(v2cat(s.PubKey, s.LeafHash), make([]byte, 32)...)[:32])
+			keys = append(keys, v2cat(s.PubKey, s.LeafHash)) // same x-only key AND same leaf hash
 		}
 		bad(v2dupKey(keys), "tap-script-sig-duplicate")
 		for _, l := range in.TapLeafScript {
@@ -162,7 +160,6 @@ func v2wfAll(p *psetv2.Pset) (l []string) {
 			for _, h := range d.LeafHashes {
 				bad(len(h) != 32, "tap-bip32-leaf-hash")
 			}
-			bad(len(d.Bip32Path) < 1, "empty-bip32-path")
 			keys = append(keys, d.PubKey)
 		}
 		bad(v2dupKey(keys), "tap-bip32-duplicate")
@@ -216,7 +213,7 @@ func v2rejectDetail(p *psetv2.Pset) string {
 	if !wfPsetV2(p) {
 		other = "bad-length" // some other clause of wf_pset
 	}
-	return v2firstOf(p, other, "empty-bip32-path", "witness-utxo<45")
+	return other
 }
 func v2fieldsDetail(p *psetv2.Pset) string {
 	return v2firstOf(p, "other", "proprietary-subtype-collision", "unknown-keytype-collision")
@@ -274,7 +271,7 @@ func v2serRepeat(p *psetv2.Pset) (b64, st, verdict string) {
 
 // clauses of wf_pset that exclude packets the library itself builds (creator / updater / exported
 // struct fields used as documented) or accepts; every other clause excludes malformed values
-var v2libraryShape = map[string]bool{"empty-bip32-path": true, "witness-utxo<45": true}
+var v2libraryShape = map[string]bool{}
 
 // C07 on a packet value
 func checkC07Pset(t *Toks) string {
